@@ -100,6 +100,14 @@ class TreeGen:
             steps = []
             r = rel
             for i in range(rng.randint(2, 4)):
+                if rng.random() < 0.15:
+                    # a T step whose ARGUMENT is a spec that fails for every child behind a star: the star swallows the
+                    # failure, the step succeeds, and whatever follows is still in the mode of the chain
+                    steps.append(rng.choice([lambda: T['n'].__star__()[T['zz_missing']], lambda: T['n'].__star__().real(T['zz_missing']),
+                                             lambda: T['a'].__star__()[Spec('zz_missing')]])())
+                    if rng.random() < 0.5:
+                        steps.append(Val(TARGET))
+                    r = 'after-star-step-with-failing-argument'
                 sub = self.gen(depth - 1, mode, False, r)
                 steps.append(sub)
                 steps.append(Val(TARGET))   # restore the target for the next step
@@ -338,6 +346,36 @@ def deep_equal(a, b, memo=None):
     return a == b or a is b
 
 
+def shared_mutable(result, lit):
+    """a list / dict / set of the literal that appears (by identity) in the result: it was handed out, not rebuilt"""
+    own = {}
+    stack, seen = [lit], set()
+    while stack:
+        v = stack.pop()
+        if id(v) in seen:
+            continue
+        seen.add(id(v))
+        if isinstance(v, (list, dict, set)):
+            own[id(v)] = v
+        if isinstance(v, dict):
+            stack.extend(v.keys()); stack.extend(v.values())
+        elif isinstance(v, (list, tuple, set, frozenset)):
+            stack.extend(v)
+    stack, seen = [result], set()
+    while stack:
+        v = stack.pop()
+        if id(v) in seen:
+            continue
+        seen.add(id(v))
+        if id(v) in own and own[id(v)] is v:
+            return v
+        if isinstance(v, dict):
+            stack.extend(v.keys()); stack.extend(v.values())
+        elif isinstance(v, (list, tuple, set, frozenset)):
+            stack.extend(v)
+    return None
+
+
 def arg_positions(lit):
     """[(name, spec, extractor(result) -> the evaluated literal)]"""
     class Box:
@@ -367,8 +405,9 @@ def shape_case(col, rng):
     col.count('shape_checks')
     if not got.ok or not deep_equal(got.value, want):
         col.violation('C08/fill-shape:' + type(lit).__name__, 'Fill(%s): expected %s, got %r' % (short(lit), short(want), got), {'literal': short(lit)})
-    elif isinstance(lit, (list, dict)) and got.value is lit:
-        col.violation('C08/fill-returns-the-literal-itself', 'Fill(%s) returned the spec container itself' % short(lit), None)
+    elif shared_mutable(got.value, lit) is not None:
+        col.violation('C08/fill-returns-the-literal-itself', 'Fill(%s): the result contains a container of the spec itself: %r'
+                      % (short(lit), shared_mutable(got.value, lit)), None)
     if col.want_sample('shape'):
         col.sample({'literal': short(lit), 'fill_result': short(want), 'arg_result': short(builder(target, False))}, 'shape')
     # argument positions
@@ -384,6 +423,13 @@ def shape_case(col, rng):
         if not deep_equal(val, want):
             col.violation('C08/arg-shape:' + name, '%s with literal %s: expected %s, got %s' % (name, short(lit), short(want), short(val)),
                           {'literal': short(lit)})
+            continue
+        sh = shared_mutable(val, lit)
+        if sh is not None:
+            col.violation('C08/arg-position-hands-out-the-literal-container:%s:%s' % (name, 'empty' if not sh else 'non-empty'),
+                          '%s with literal %s: the result contains the %s %r of the spec itself (not rebuilt): a caller mutating '
+                          'its result would change the spec' % (name, short(lit), type(sh).__name__, sh), {'literal': short(lit)})
+        col.count('rebuilt_identity_checks')
 
 
 def cyclic_case(col, rng):
